@@ -1,6 +1,8 @@
 (* line protocol (strings = decimal code points joined by ","):
    T|<ns>|<tokens>   ns = prefix:uri;...   tokens = type:value;...     -> result of Selector.select
    A|<ns>|<ast words> (prefix notation, see harness/props/c16.py)       -> "<declared> <b> <c> <d>|<tokens>|<result>"
+   S|<ns>|<tokens>   serialisation (do_css_Selector) of what Selector.select accepts -> NONE | =<text>
+   L|<ns>|<tokens>   SelectorList -> CRASH | REJ | ACC b c d|items@b c d|items...
    H|<ns>|<tokens>#<tokens>#...   successive assignments to one Selector -> EMPTY | CRASH | ACC ... (what it holds)
    P|<raising 0/1>|<step>#<step>...   step = S/<tokens> | C/<ispage>/<O|L|R>/<selector tokens>: assignments to one
                      CSSPageRule; after each step "n f l~items@" (UNMOD@ and stop when not modelled)
@@ -21,7 +23,7 @@ let pair x = match String.split_on_char ':' x with [a; b] -> (str_in a, str_in b
 let item_out (t, v) =
   let ts = str_out (ityp_str t) in
   match v with
-  | VStr w -> ts ^ "~S~" ^ str_out w ^ "~"
+  | VStr0 w -> ts ^ "~S~" ^ str_out w ^ "~"
   | VComment w -> ts ^ "~C~" ^ str_out w ^ "~"
   | VPair (u, n) -> ts ^ "~P~" ^ (match u with UAny -> "A" | UNone -> "N" | UStr x -> "U" ^ str_out x) ^ "~" ^ str_out n
 let result_out = function
@@ -101,8 +103,21 @@ let () =
           if !pos <> Array.length !words then failwith "trailing words";
           let ((b, c), d) = sp_selector x in
           let toks = render x in
-          Printf.printf "%d %d %d %d|%s|%s\n" (if declared_b ns x then 1 else 0) (int_of_nat b) (int_of_nat c) (int_of_nat d)
-            (String.concat ";" (List.map tok_out toks)) (result_out (run ns (prepass toks)))
+          Printf.printf "%d %d %d %d %d|%s|%s\n" (if declared_b ns x then 1 else 0) (int_of_nat b) (int_of_nat c) (int_of_nat d)
+            (if sep_free x then 1 else 0)
+            (String.concat ";" (List.map tok_out toks)) (result_out (sel_run ns (sel_prepass toks)))
+        | ["S"; ns; toks] ->
+          let ns = List.map pair (split ';' ns) in
+          print_endline (match select_ser ns (List.map pair (split ';' toks)) with None -> "NONE" | Some t -> "=" ^ str_out t)
+        | ["L"; ns; toks] ->
+          let ns = List.map pair (split ';' ns) in
+          print_endline (match sl_select ns (List.map pair (split ';' toks)) with
+              | None -> "CRASH"
+              | Some SLRejected -> "REJ"
+              | Some (SLAccepted ms) ->
+                "ACC " ^ String.concat "@" (List.map (fun (((b, c), d), q) ->
+                    Printf.sprintf "%d %d %d|%s" (int_of_nat b) (int_of_nat c) (int_of_nat d)
+                      (String.concat ";" (List.map item_out q))) ms))
         | ["H"; ns; hist] ->
           let ns = List.map pair (split ';' ns) in
           let hist = List.map (fun h -> List.map pair (split ';' h)) (String.split_on_char '#' hist) in
